@@ -160,18 +160,21 @@ package text
 //@ -- a compiled pattern is usable by the reader when it is anchored at the cursor and cannot match the empty input
 //@ abstract func reAnchored(re *regexp.Regexp) bool
 //@ abstract func reMatchesEmpty(re *regexp.Regexp) bool
+//@ -- the source text a pattern was compiled from, and the number of capturing groups of a source text
+//@ abstract func reSource(re *regexp.Regexp) string
+//@ abstract func GroupsOf(src string) int
 //@ -- validSource(s): s compiles (MustCompile does not panic) and does not match the empty input;
 //@ -- validPattern(e): that holds of "^(?:"+e+")" (getPattern panics otherwise: documented argument check)
 //@ abstract func validSource(src string) bool
 //@ pure func validPattern(expr string) bool = validSource("^(?:" + expr + ")")
 //@ pure func anchoredSource(s string) bool = len(s) >= 4 && s[0] == '^' && s[1] == '(' && s[2] == '?' && s[3] == ':'
-//@ pure func wfCache(r *Reader) bool = r.regexpCache != nil && forall k string :: dom(r.regexpCache, k) ==> r.regexpCache[k] != nil && reAnchored(r.regexpCache[k]) && !reMatchesEmpty(r.regexpCache[k])
+//@ pure func wfCache(r *Reader) bool = r.regexpCache != nil && forall k string :: dom(r.regexpCache, k) ==> r.regexpCache[k] != nil && reAnchored(r.regexpCache[k]) && !reMatchesEmpty(r.regexpCache[k]) && reSource(r.regexpCache[k]) == "^(?:" + k + ")"
 
 //@ assume func regexp.MustCompile(str string) (re *regexp.Regexp)
 //@   ensures re != nil && fresh(re)
 //@   requires validSource(str)
 //@   ensures anchoredSource(str) ==> reAnchored(re)
-//@   ensures !reMatchesEmpty(re)
+//@   ensures !reMatchesEmpty(re) && reSource(re) == str
 //@   assigns nothing
 
 //@ assume func (re *regexp.Regexp) Match(b []byte) (r bool)
@@ -188,14 +191,14 @@ package text
 
 //@ assume func (re *regexp.Regexp) FindSubmatch(b []byte) (m [][]byte)
 //@   requires re != nil
-//@   ensures  m != nil ==> len(m) >= 1 && len(m[0]) <= len(b)
+//@   ensures  m != nil ==> len(m) == 1 + GroupsOf(reSource(re)) && len(m) >= 1 && len(m[0]) <= len(b)
 //@   ensures  m != nil && reAnchored(re) ==> array(m[0]) == array(b) && offset(m[0]) == offset(b)
 //@   assigns  nothing
 
 //@ func (r *Reader) getPattern(expr string) (re *regexp.Regexp)
 //@   requires r != nil && wfCache(r)
 //@   requires validPattern(expr)
-//@   ensures  re != nil && reAnchored(re) && !reMatchesEmpty(re)
+//@   ensures  re != nil && reAnchored(re) && !reMatchesEmpty(re) && reSource(re) == "^(?:" + expr + ")"
 //@   ensures  wfCache(r)
 //@   assigns  mapcells(r.regexpCache)
 
@@ -215,7 +218,7 @@ package text
 //@   requires validPattern(expr)
 //@   let f = r.file
 //@   ensures [mismatch] m == nil ==> np == pos
-//@   ensures [span] m != nil ==> len(m) >= 1 && int(np) == int(pos) + len(m[0])
+//@   ensures [span] m != nil ==> len(m) >= 1 && int(np) == int(pos) + len(m[0]) && len(m) == 1 + GroupsOf("^(?:" + expr + ")")
 //@   ensures [bound] int(pos) <= int(np) && int(np) <= f.offset + f.len
 //@   ensures  wfCache(r)
 //@   assigns  mapcells(r.regexpCache)
@@ -227,6 +230,7 @@ package text
 //@   ensures [advance] v != nil ==> int(np) > int(pos)
 //@   assigns nothing
 //@ callee f(b []byte) (v []byte, n int)
+//@   requires len(b) >= 1
 //@   ensures n == 0 ==> v == nil
 //@   ensures 0 <= n && len(v) <= n && n <= len(b)
 //@   assigns nothing
